@@ -452,3 +452,50 @@ Print Assumptions C14_dry_run_req.
 Theorem C14_dry_run_cfg : C14_dry_run_statement cfg_writer_guard.
 Proof. exact (C14_dry_run_all cfg_writer_guard). Qed.
 Print Assumptions C14_dry_run_cfg.
+
+(* ------------------------------------------------------------------------------------------------ *)
+(** ** The writers' reported diff reproduces the file they write (premise [HW] of Proofs/RunDiff.v / C03_run_diffs_compose)
+
+    [W_manifest] (Model/ManifestRun.v) packages the requirements.txt and setup.cfg writers of Model/Manifest.v as the
+    writer oracle of the orchestration model, inside the decidable guard the refutations above need: LF manifest (no
+    "\r"), requirement strings without line boundary, and for setup.cfg the newline-separated list whose rewritten
+    lines are LF-clean (no inline list, no glued last line, no phantom line).  The diff is diff.py's create_diff over
+    difflib's opcodes of (lines read after the `+= "\n"` repair, lines written): [matcher] is the difflib oracle and its
+    contract (it is a script between the two line lists) stays a premise, as in C03.  pyproject.toml / setup.py:
+    [W_manifest] answers None - NOTHING is proved for them (differential only). *)
+From CM Require Import Model.ManifestRun Proofs.ManifestRunFacts.
+From CM Require Model.Run Spec.DiffSpec Proofs.RunDiff.
+
+Theorem C14_writer_diff_roundtrip : forall matcher line_of defined_of lv,
+  (forall a b, Diff.a_of (matcher a b) = a /\ Diff.b_of (matcher a b) = b) ->
+  forall k b ds b' d chs,
+    W_manifest matcher line_of defined_of lv k (Some b) ds = Some (b', d, chs) -> RunDiff.clean b ->
+    Diff.apply_udiff d b = Some (DiffSpec.norm_nl b') /\ RunDiff.clean b'.
+Proof. intros matcher line_of defined_of lv Hv k b ds b' d chs H Hc. exact (W_manifest_roundtrip matcher line_of defined_of lv Hv k b ds b' d chs H Hc). Qed.
+Print Assumptions C14_writer_diff_roundtrip.
+
+(** the oracle is the C14 model of the two writers (same new content, same change line numbers), not a second model *)
+Theorem C14_writer_oracle_is_model : forall matcher line_of defined_of lv b ds b' d chs,
+  (W_manifest matcher line_of defined_of lv Types_Run.SReqTxt (Some b) ds = Some (b', d, chs) ->
+     exists nums, req_add_to_file DryGuarded false b (mdeps line_of ds) = (WSome nums, b') /\ chs = changes_of nums) /\
+  (W_manifest matcher line_of defined_of lv Types_Run.SSetupCfg (Some b) ds = Some (b', d, chs) ->
+     cfg_add_to_file lv DryGuarded false b (defined_of b) (mdeps line_of ds) = (WSome [], b')).
+Proof.
+  intros. split; [apply W_manifest_req_is_model|apply W_manifest_cfg_is_model].
+Qed.
+Print Assumptions C14_writer_oracle_is_model.
+
+(** Non-vacuity: inside the guard the oracle answers (here with a one-hunk matcher), for both formats and both setup.cfg variants. *)
+Example C14_writer_diff_roundtrip_example :
+  let matcher := fun a b : list str => {| Diff.gap0 := []; Diff.hunks := [([Diff.SRep a b], [])] |} in
+  let line_of := fun n : str => n ++ [61;61;49;46;51;46;49]%N in
+  let defined_of := fun _ : str => Some [10;102;111;111;10;98;97;114;62;61;49]%N in
+  let cfg := [91;111;112;116;105;111;110;115;93;10;105;110;115;116;97;108;108;95;114;101;113;117;105;114;101;115;32;61;10;32;32;32;32;102;111;111;10;32;32;32;32;98;97;114;62;61;49;10;10;91;120;93;10;97;61;49]%N in
+  (exists d chs, W_manifest matcher line_of defined_of LastLineTerminated Types_Run.SReqTxt (Some [102;111;111;61;61;49;46;48;10;98;97;114]%N) [[115;101;99;117;114;105;116;121]%N]
+                 = Some ([102;111;111;61;61;49;46;48;10;98;97;114;10;115;101;99;117;114;105;116;121;61;61;49;46;51;46;49;10]%N, d, chs)) /\
+  (exists d chs, W_manifest matcher line_of defined_of LastLineTerminated Types_Run.SSetupCfg (Some cfg) [[115;101;99;117;114;105;116;121]%N]
+                 = Some ([91;111;112;116;105;111;110;115;93;10;105;110;115;116;97;108;108;95;114;101;113;117;105;114;101;115;32;61;10;32;32;32;32;102;111;111;10;32;32;32;32;98;97;114;62;61;49;10;32;32;32;32;115;101;99;117;114;105;116;121;61;61;49;46;51;46;49;10;10;91;120;93;10;97;61;49;10]%N, d, chs)) /\
+  (exists d chs, W_manifest matcher line_of defined_of LastLineAsIs Types_Run.SSetupCfg (Some cfg) [[115;101;99;117;114;105;116;121]%N]
+                 = Some ([91;111;112;116;105;111;110;115;93;10;105;110;115;116;97;108;108;95;114;101;113;117;105;114;101;115;32;61;10;32;32;32;32;102;111;111;10;32;32;32;32;98;97;114;62;61;49;10;32;32;32;32;115;101;99;117;114;105;116;121;61;61;49;46;51;46;49;10;10;91;120;93;10;97;61;49]%N, d, chs)) /\
+  W_manifest matcher line_of defined_of LastLineTerminated Types_Run.SReqTxt (Some [102;111;111;61;61;49;46;48;13;10;98;97;114;13;10]%N) [[115;101;99;117;114;105;116;121]%N] = None.
+Proof. vm_compute. repeat split; eexists; eexists; reflexivity. Qed.
